@@ -326,7 +326,7 @@ class Api:
     def f_PyObject_Call(self, a, st, k):
         st = self.nonnull(st, a[0], "PyObject_Call")
         st = st.log(("call", a[0], a[1], a[2] if len(a) > 2 else NULL))
-        return self.python_call(st, "PyObject_Call", k, lambda s: k(NULL, s))
+        return self.python_call(st, "PyObject_Call", lambda r, s: k(r, s.gset("last_call_result", r)), lambda s: k(NULL, s))
 
     def f_PyObject_IsInstance(self, a, st, k):
         st = self.nonnull(st, a[0], "PyObject_IsInstance")
@@ -458,6 +458,21 @@ def _get_value_ok(self, a, st, k):
     return None
 
 
+def _tuple_pack(self, a, st, k):
+    """PyTuple_Pack(n, o1..on): a new tuple holding its own references to the items (A-ALLOC: succeeds)"""
+    n = z3.simplify(as_int(a[0]))
+    if not z3.is_int_value(n) or n.as_long() != len(a) - 1:
+        raise Unsupported("PyTuple_Pack with a symbolic count")
+    st2 = st
+    for i, v in enumerate(a[1:]):
+        st2 = self.nonnull(st2, v, "PyTuple_Pack-item-%d" % i)
+    r, st2 = self.fresh_obj("packed", st2)
+    facts = [is_exact(r, "PyTuple_Type"), is_inst(r, "PyTuple_Type"), tuple_len(r) == len(a) - 1]
+    facts += [tuple_item(r, z3.IntVal(i)) == v for i, v in enumerate(a[1:])]
+    return k(r, st2.assume(*facts))
+
+
+Api.f_PyTuple_Pack = _tuple_pack
 Api.f_PyTuple_New = _tuple_new
 Api.f_PyTuple_SET_ITEM = _tuple_set_item
 
